@@ -17,6 +17,7 @@ EXPLANATION = (
     "try_get_arg_t/try_remove_arg_t in the same function; in try_remove_arg_t every path from remove_entry to an Err return "
     "re-inserts the entry. R4.5b MatchedArg::infer_type_id answers with the declared type id first (values only as a fallback). NOT decided: the accepted language of str::parse::<i64> (std), exhaustive boundary behaviour."
     ' R4.5c: infer_type_id scans the stored values when no type is recorded (group entries).'
+    " R4.A accessor layer (lib/accessors.py): for the is_*_set / get_* accessors this property's rules name — the bool builder sets and unsets one flag on the right edges and the predicate reads that same flag; builder scope (global/local) as in audit/setting_scope.tsv; no two predicates/builders share a flag; setting/unset_setting/global_setting/is_set forward to the right flag word, the flag word is |=bit / &=!bit / &bit!=0 with bit = 1<<discriminant, _propagate_subcommand hands g_settings to the child's settings and g_settings; plain field getters return their field."
 )
 TRUSTED = ["rustc MIR + HIR", "clapfacts", "std str::parse / TryFrom for integers"]
 ASSUMPTIONS = ["user-defined TypedValueParser impls are outside this property"]
